@@ -45,8 +45,18 @@ Print Assumptions C01_hs_signed_with_secret.
 
 (* The full statement "every accepted JWT credential is addressed to this endpoint or the issuer" is FALSE of
    the faithful model when request_param is among the endpoint's methods: RequestParam._verify checks no
-   audience.  credential_ok therefore has no audience clause for MRequestParam (C01_sound is the partial
-   statement: audience is guaranteed for client_secret_jwt / private_key_jwt only), and: *)
+   audience (known finding key=request_param-aud).  credential_ok therefore has no audience clause for
+   MRequestParam; the audience clause is proved with the explicit guard "method <> request_param", and the
+   unguarded statement is refuted by a witness: *)
+Theorem C01_audience_partial : forall cx ep rq now jdb jdb' ai X j,
+  client_authentication cx ep rq now jdb = (Ok (Some ai), jdb') ->
+  ai_client ai = Some X ->
+  used_jwt rq (ai_method ai) = Some j ->
+  ai_method ai <> MRequestParam ->
+  aud_ok ep j.
+Proof. exact audience_partial. Qed.
+Print Assumptions C01_audience_partial.
+
 Definition wit_cdb : list (pystr * client) :=
   [(PS "c1", {| c_secret := Some (PS "s1"); c_expires := None; c_methods := None; c_ep_methods := [] |});
    (PS "c2", {| c_secret := Some (PS "s2"); c_expires := Some 0%Z; c_methods := None; c_ep_methods := [] |});
@@ -83,30 +93,15 @@ Proof.
 Qed.
 Print Assumptions C01_request_param_audience_refuted.
 
-(* (2) What parse_request hands on.  Full statement (FALSE of the faithful model):
-     parse_request ... = (Ok (PGeneric (Some X) true), jdb') -> an authenticating method accepted X.
-   Endpoint.parse_request sets request["authenticated"] but never clears a value the request body brought
-   along, so with a non-authenticating method (public / none / no list) the flag can be smuggled in. *)
-Theorem C01_flag_sound_partial : forall cx ep rq now jdb jdb' X,
-  r_authflag rq = false ->
+(* (2) What parse_request hands on: a request is passed on as *authenticated* client X only if an
+   authenticating method accepted X (full statement; since /repo commit 12d8b53 Endpoint.parse_request deletes
+   an "authenticated" parameter that the request body brought along - r_authflag is without effect). *)
+Theorem C01_flag_sound : forall cx ep rq now jdb jdb' X,
   parse_request cx ep rq now jdb = (Ok (PGeneric (Some X) true), jdb') ->
   exists ai, client_authentication cx ep rq now jdb = (Ok (Some ai), jdb')
     /\ ai_client ai = Some X /\ authenticating (ai_method ai) = true.
-Proof. exact flag_sound_partial. Qed.
-Print Assumptions C01_flag_sound_partial.
-
-Theorem C01_flag_refuted :
-  exists cx ep rq now,
-    parse_request cx ep rq now [] = (Ok (PGeneric (Some (PS "c1")) true), [])
-    /\ r_hdr rq = HAbsent /\ r_client_secret rq = None /\ r_access_token rq = None
-    /\ r_assertion rq = None /\ r_request rq = None.
-Proof.
-  exists wit_cx, (wit_ep [MPost; MPublic]),
-    {| r_hdr := HAbsent; r_client_id := Some (PS "c1"); r_client_secret := None; r_access_token := None;
-       r_assertion := None; r_request := None; r_authflag := true |}, 1000%Z.
-  repeat split; vm_compute; reflexivity.
-Qed.
-Print Assumptions C01_flag_refuted.
+Proof. exact flag_sound. Qed.
+Print Assumptions C01_flag_sound.
 
 (* userinfo hands a request on only for a bearer token that its lookup resolves to that client *)
 Theorem C01_userinfo_sound : forall cx ep rq now jdb jdb' X t,
@@ -211,6 +206,14 @@ Example C01_nonvacuous_refusing :
                cx_kj := wit_kj; cx_tok := fun _ => TokOther |} (wit_ep all4) rq_basic 1000 [])
      = Err InvalidClient.
 Proof. vm_compute. repeat split. Qed.
+
+(* the former smuggling input: public method, body carries authenticated=true: handed on, but NOT authenticated *)
+Example C01_smuggled_flag_ignored :
+  parse_request wit_cx (wit_ep [MPost; MPublic])
+    {| r_hdr := HAbsent; r_client_id := Some (PS "c1"); r_client_secret := None; r_access_token := None;
+       r_assertion := None; r_request := None; r_authflag := true |} 1000 []
+  = (Ok (PGeneric (Some (PS "c1")) false), []).
+Proof. vm_compute. reflexivity. Qed.
 
 (* a history in which the same assertion is presented three times is accepted exactly once *)
 Example C01_nonvacuous_replay :
